@@ -30,7 +30,7 @@ TIERS = {
     "quick": {"runs": 12000, "block": 250, "budget_s": 80},
     "thorough": {"runs": 400000, "block": 500, "budget_s": 900},
 }
-STEP_LIMIT = 20_000_000
+STEP_LIMIT = 40_000_000
 SOLVER_ERRORS = (UnboundLocalError, IndexError, KeyError, TypeError, ValueError, ZeroDivisionError, OverflowError, AttributeError,
                  RecursionError, AssertionError, NameError)
 
@@ -225,7 +225,9 @@ def judge(case, v, o: Outcome, label, opt, faulted, fault_kind):
     solver = "solve_" + case["solver"]
     key = dict(target=solver, mode=case["mode"], fault=fault_kind)
     if v["skipped"]:
-        o.probe("step_budget_skip")
+        # C17 is about the plans that come back; 40 M events is 20x the largest legitimate run measured on these instance sizes
+        # (and no run of 178 k thorough soak runs came near it), so nothing will come back
+        o.violate(PROP, "no_return", f"{label}: {solver} did not return within {STEP_LIMIT} events", **key)
         return
     if v["exc"] is not None:
         if opt is None:
